@@ -22,6 +22,8 @@ def main():
             ctx.count("pinned_known_finding_cases")
         else:
             mod.run_shard(job["shard"], ctx)
+        from . import contracts
+        contracts.flush(ctx, job["prop"])
     except Exception:
         ctx.inconclusive(f"shard {job['index']} ({job['shard'].get('kind')}) harness error: " + traceback.format_exc()[-1500:])
     with open(out, "w") as f:
